@@ -79,6 +79,18 @@ def events(rng, homs):
         yield "crm", {"a": a1, "b": b_}, 1.0, (lambda live=live, B=B, set0=set0: (set0(), live.cross(V(B)).A)[1]), "SpatialVelocity.cross(live,after item assignment)"
         yield "crf", {"a": a1, "b": b_}, 1.0, (lambda live=live, B=B: (live @ F(B)).A), "SpatialVelocity@force(live,after item assignment)"
         yield "crm", {"a": a2, "b": b_}, 1.0, (lambda live=live, B=B, poppush=poppush: (poppush(), live.cross(V(B)).A)[1]), "SpatialVelocity.cross(live,after pop and append)"
+    # nearly equal (not equal) operands: m = K v + d with K = 1e6, so that m / K is within 1e-5 relative of v
+    smalls = [(1, -2, 0, 3, -1, 2), (0, 1, 1, -1, 0, 2), (2, 0, -3, 0, 1, 1)]
+    for i in range(6, len(pts)):
+        a, d_ = pts[i], smalls[i % 3]
+        if any(abs(x) < 10 for x in a):
+            continue
+        K = 1e6
+        A = np.array(a, dtype=float)
+        M = K * A + np.array(d_, dtype=float)
+        # (K v) x (K v + d) = K (v x d)
+        yield "crm_near", {"a": a, "d": d_}, 1 / K, (lambda A=A, M=M, K=K: V(K * A).cross(V(M)).A), "SpatialVelocity.cross(nearly-equal)"
+        yield "crm_near", {"a": a, "d": d_}, 1 / K, (lambda A=A, M=M, K=K: (V(K * A) @ V(M)).A), "SpatialVelocity@(nearly-equal)"
     Js = [((2, 0, 0), (0, 3, 0), (0, 0, 4)), ((2, 1, 0), (1, 3, -1), (0, -1, 4)), ((5, -2, 1), (-2, 6, 0), (1, 0, 7))]
     cs = [(0, 0, 0), (1, 0, 0), (1, -2, 3), (0, 2, -1)]
     for m in (1, 2, 5):
